@@ -306,7 +306,7 @@ def load_parameters(param_file: str | pathlib.Path) -> list[dict]:
     List of the parameters dictionaries.
     """
 
-    fp = pathlib.Path(param_file).stem + '.yaml'
+    fp = pathlib.Path(param_file).with_suffix('.yaml')
     with open(fp, mode='rb') as f:
         config = yaml.safe_load(f)
 
